@@ -109,7 +109,23 @@ def relabel(recs, kind, rng):
         lo = {c: min(r.resnum for r in recs if r.raw is None and r.chain == c) for c in chains}
         hi = {c: max(r.resnum for r in recs if r.raw is None and r.chain == c) for c in chains}
         sh = {}
+        packed = None
+        if len(chains) >= 2 and all(c.strip() for c in chains) and rng.random() < 0.25:
+            # all chains shifted so that their numbers differ by a round multiple of the distance of their
+            # identifiers (a packed key such as 1000*ord(chain)+number would then confuse them)
+            base_ = rng.choice((100, 256, 1000, 1000))
+            first = chains[0]
+            for start in (0, 1000, 2000, 3000, -lo[first], 5000):
+                trial = {first: start}
+                for c in chains[1:]:
+                    trial[c] = start - base_ * (ord(c) - ord(first))
+                if all(-999 <= lo[c] + trial[c] and hi[c] + trial[c] <= 9999 for c in chains):
+                    packed = trial
+                    break
         for c in chains:
+            if packed:
+                sh[c] = packed[c]
+                continue
             choices = [rng.randrange(-50, 50), -lo[c] - rng.randrange(0, (hi[c] - lo[c]) + 1), -999 - lo[c], 9999 - hi[c],
                        rng.randrange(100, 3000), 0, 1, -1, -(lo[c] + hi[c]) // 2, -(lo[c] + hi[c]) // 2]
             prev = chains[chains.index(c) - 1] if chains.index(c) > 0 else None
@@ -120,6 +136,12 @@ def relabel(recs, kind, rng):
                 last_p = [r.resnum for r in recs if r.raw is None and r.chain == prev][-1] + sh[prev]
                 first_p = next(r.resnum for r in recs if r.raw is None and r.chain == prev) + sh[prev]
                 choices += [last_p - first_c, first_p - first_c, last_p - first_c, first_p - first_c]
+            if prev is not None and c.strip() and prev.strip():
+                # numbers of two chains that differ by a round multiple of the distance between their
+                # identifiers (what a packed key such as 1000*ord(chain)+number would confuse)
+                dl = ord(c) - ord(prev)
+                for base_ in (100, 256, 1000):
+                    choices += [sh[prev] - base_ * dl, sh[prev] + base_ * dl]
             # a hetero residue of this chain gets the number of a like-named hetero residue of an
             # earlier chain (two copies of a ligand that differ in the chain identifier only)
             het_c = sorted({(r.resn, r.resnum) for r in recs if r.raw is None and r.chain == c and r.tag == "HETATM"})
@@ -139,7 +161,7 @@ def relabel(recs, kind, rng):
                 r.resnum += sh[r.chain]
             out.append(r)
         crosses = any(lo[c] + sh[c] <= 0 < lo[c] or (lo[c] + sh[c] < 0 <= hi[c] + sh[c]) for c in chains)
-        return out, {"shift": sh, "crosses_zero": crosses}
+        return out, {"shift": sh, "crosses_zero": crosses, "packed": bool(packed)}
     # icode-renumber: number residues in file order per chain, blank insertion codes
     cur = {}
     last = {}
